@@ -124,6 +124,7 @@ type Sim struct {
 	reloadDropped map[string]bool
 	confGen       int
 	pendingReload *model.Topo
+	pauseIPAM     func(method string, after bool) bool // set before runPaused: pause point between IPAM calls
 	compound      bool   // an interleaved (two-goroutine) execution is in progress: steps skip their monitors
 	faultTag      string // signature suffix of the execution mode
 	recMu         sync.Mutex
